@@ -273,7 +273,17 @@ class FnTotality:
                     self.sites.append(s)
                 elif kind in ("div0", "rem0"):
                     s = Site(self.fn, bi, "div", disc_with_ordinal("div"), t[6], t[7])
-                    dv = ev.op_ival(t[4][0])
+                    # the assert's condition is `divisor == 0` (its message operand is the dividend)
+                    dv = None
+                    cl = operand_local(t[1])
+                    cd = self.body.single_def(cl) if cl is not None else None
+                    if cd and cd[2] == "A" and cd[3][2][0] == "bin" and cd[3][2][1] == "Eq":
+                        for x, y in ((cd[3][2][2], cd[3][2][3]), (cd[3][2][3], cd[3][2][2])):
+                            if const_int(y) == 0:
+                                dv = ev.op_ival(x)
+                                c_ = const_int(x)
+                                if dv is None and c_ is not None:
+                                    dv = (c_, c_)
                     if dv is not None and dv[0] > 0:
                         s.status = "discharged"
                         s.why = "divisor >= %s" % dv[0]
